@@ -18,6 +18,8 @@ import z3
 from . import smt
 from .smt import Ctx, fresh_int, fresh_bool, fresh_arr, iv, is_conc_int
 from . import values as V
+from .plist import VPList, Chunks
+from . import plist as PL
 from .values import (NONE, VBool, VConst, VDict, VExc, VInt, VList, VNone, VObj, VOpt, VSeg, VSList, VStr, VStream, VSymCache, VTuple,
                      Unsupported, lit)
 
@@ -78,7 +80,7 @@ class St:
     def tr(self, v, depth=0):
         """the copy, in this state, of a heap object that was obtained in an ancestor state
         (values computed before a fork must be re-targeted to the fork's own heap)"""
-        if isinstance(v, (VObj, VDict, VList, VSymCache, VSList)):
+        if isinstance(v, (VObj, VDict, VList, VSymCache, VSList, VPList)):
             seen = 0
             while id(v) in self.remap and seen < 64:
                 v = self.remap[id(v)][1]
@@ -158,6 +160,12 @@ def _clone(v, memo):
         if id(v) in memo:
             return memo[id(v)][1]
         n = VSList(v.view, v.fresh)
+        memo[id(v)] = (v, n)
+        return n
+    if isinstance(v, VPList):
+        if id(v) in memo:
+            return memo[id(v)][1]
+        n = VPList(v.chunks, v.sep, v.fresh)
         memo[id(v)] = (v, n)
         return n
     if isinstance(v, VSymCache):
@@ -372,6 +380,8 @@ class Executor:
             return z3.BoolVal(len(v.items) > 0)
         if isinstance(v, VSList):
             return v.view.len() > 0
+        if isinstance(v, VPList):
+            return PL.truth(v)
         if isinstance(v, VSeg):
             return v.t != 0            # only the empty segment is falsy
         if isinstance(v, VDict):
@@ -812,10 +822,16 @@ class Executor:
 
     def e_Tuple(self, e, st):
         for items, s2 in self.eval_list(e.elts, st):
+            if not isinstance(items, Raised) and any(isinstance(x, Chunks) for x in items):
+                yield PL.from_items(items), s2
+                continue
             yield (items if isinstance(items, Raised) else VTuple(items)), s2
 
     def e_List(self, e, st):
         for items, s2 in self.eval_list(e.elts, st):
+            if not isinstance(items, Raised) and any(isinstance(x, Chunks) for x in items):
+                yield PL.from_items(items), s2
+                continue
             yield (items if isinstance(items, Raised) else VList(items, fresh=True)), s2
 
     def eval_list(self, exprs, st, i=0):
@@ -828,6 +844,13 @@ class Executor:
         for v, s2 in self.eval(ex.value if star else ex, st):
             if isinstance(v, Raised):
                 yield v, s2
+                continue
+            if star and isinstance(v, VPList):
+                for rest, s3 in self.eval_list(exprs, s2, i + 1):
+                    if isinstance(rest, Raised):
+                        yield rest, s3
+                    else:
+                        yield [Chunks(v if s3 is s2 and not s3.remap else s3.tr(v))] + rest, s3
                 continue
             if star and not isinstance(v, (VTuple, VList)):
                 raise Unsupported("star of non-sequence")
@@ -1343,6 +1366,16 @@ class Executor:
                 for fv, s4 in self.force(s3, vals):
                     lo = None if isinstance(fv[1], VNone) else fv[1]
                     hi = None if isinstance(fv[2], VNone) else fv[2]
+                    if isinstance(fv[0], VPList):
+                        cl = None if lo is None else lo.conc()
+                        ch = None if hi is None else hi.conc()
+                        if cl is None and ch == -1 and hi is not None:
+                            yield PL.drop_last(fv[0]), s4
+                        elif cl == 1 and hi is None:
+                            yield PL.drop_first(fv[0]), s4
+                        else:
+                            raise Unsupported("this slice of a split list")
+                        continue
                     yield self.slice(s4, fv[0], lo, hi, e), s4
         else:
             for vals, s3 in self.eval_list([e.value, e.slice], st):
@@ -1380,6 +1413,15 @@ class Executor:
                     yield V.char_at(s2.ctx, base, idx.t), s2
                 else:
                     yield Raised(VExc(IndexError)), s2
+            return
+        if isinstance(base, VPList):
+            ci = idx.conc() if isinstance(idx, VInt) else None
+            if ci == -1:
+                yield from PL.last(self, st, base, node)
+            elif ci == 0:
+                yield from PL.first(self, st, base, node)
+            else:
+                raise Unsupported("this index into a split list")
             return
         if isinstance(base, VSList):
             v = base.view
@@ -1506,7 +1548,7 @@ class Executor:
             if m is not None:
                 return m
             raise Unsupported(f"attribute {name} of {base.cls}")
-        if isinstance(base, (VStr, VList, VDict, VTuple, VSymCache, VStream, VSList)):
+        if isinstance(base, (VStr, VList, VDict, VTuple, VSymCache, VStream, VSList, VPList)):
             return BoundMethod(base, name)
         if isinstance(base, VConst):
             cls = type(base.obj)
@@ -1959,6 +2001,11 @@ class Executor:
                 base.removed.discard(idx.conc)
             elif isinstance(base, VDict) and isinstance(idx, VStr) and idx.conc is not None:
                 base.d[idx.conc] = v
+            elif isinstance(base, VPList) and isinstance(idx, VInt) and idx.conc() in (0, -1) and isinstance(v, VStr):
+                if idx.conc() == -1:
+                    PL.set_last(base, v)
+                else:
+                    PL.set_first(base, v)
             elif isinstance(base, VList) and isinstance(idx, VInt) and idx.conc() is not None:
                 ci = idx.conc()
                 if not (-len(base.items) <= ci < len(base.items)):
